@@ -479,7 +479,17 @@ class Harness:
         self.capture_time = t
         if batch.get('capture_first') is not None: sim.c_to_s(time=np.float32(batch['capture_first']))      # an earlier capture is simply overwritten
         if t is None: sim.c_to_s()
-        else: sim.c_to_s(time=np.float32(t))
+        else:
+            tt = batch.get('time_type', 'f32')
+            t32 = np.float32(t)
+            if tt == 'py': targ = float(t32)
+            elif tt == 'int': targ = int(t)
+            elif tt == 'f64': targ = np.float64(t32)
+            elif tt == 'f64_above': targ = np.float64(t32) + abs(np.float64(t32)) * 2.0 ** -30      # rounds to t32 in float32, lies above it
+            elif tt == 'f64_below': targ = np.float64(t32) - abs(np.float64(t32)) * 2.0 ** -30
+            else: targ = t32
+            if tt != 'f32': res.probe('capture_time_' + tt)
+            sim.c_to_s(time=targ)
         out = {'time': t, 's': np.array(unwrap(sim.s)).copy(), 'abuf': np.array(unwrap(sim.abuf)).copy(), 'inputs': inputs,
                'produced': self.produced, 'c': unwrap(sim.c).copy()}
         if batch.get('ppo2ppi'):
